@@ -372,11 +372,22 @@ def engNary (k : NaryK) : List ETy → ETy
 def engUn (k : UnK) (ea : ETy) : ETy := if isWrap k then resolveE ea else T.duckUn k ea
 
 /-- how a column reference is qualified -/
-inductive Qual | none | this | other
+inductive Qual
+  | none                      -- `c`
+  | this                      -- `t.c`: the base table of the scope
+  | derived (alias : String)  -- `s.c`: a derived table / CTE of the scope (a child scope)
+  | other                     -- qualified with something that is not a source of the scope
   deriving DecidableEq, Repr, Inhabited
 
-/-- a flat one-table schema `{"t": {name: type}}`; names are the normalised (lower-case) identifiers -/
-abbrev Schema := List (String × Ty)
+/-- the projections of a child scope as the parent sees them: name ↦ (the type left on the projection by annotating the
+    child scope first, the engine's type class of that column) -/
+abbrev Selects := List (String × (Ty × ETy))
+
+/-- the sources of one scope: the base table `t` with its schema columns (normalised lower-case names), and the derived
+    tables / CTEs of the scope with their already annotated projections (`_get_source_scope_selects`) -/
+structure Schema where
+  table : List (String × Ty)
+  derived : List (String × Selects) := []
 
 mutual
 /-- typed expressions over the columns of one table -/
@@ -397,12 +408,18 @@ instance : Inhabited TExpr := ⟨.nullLit⟩
 
 variable (S : Schema)
 
-/-- `_annotate_expression` on a Column: only a column qualified with a table that is a source of the scope is looked up
-    (`schema.get_column_type`, UNKNOWN when the schema has no such column); an unqualified column, or one qualified with
-    something that is not a source, is left UNKNOWN (annotate_types does not qualify). -/
+/-- `_annotate_expression` on a Column: a column qualified with the base table is looked up in the schema
+    (`schema.get_column_type`, UNKNOWN when there is no such column); a column qualified with a derived table / CTE takes the
+    type of the child scope's projection of that name (`_get_scope_source_selects`); an unqualified column, or one qualified
+    with something that is not a source, is left UNKNOWN (annotate_types does not qualify). -/
 def annotCol (q : Qual) (name : String) : Ty :=
   match q with
-  | .this => (S.lookup name).getD .unknown
+  | .this => (S.table.lookup name).getD .unknown
+  | .derived a =>
+    -- `_get_scope_source_selects(scope, alias).get(name)`; no such source / no such projection: UNKNOWN
+    match (S.derived.lookup a).bind (·.lookup name) with
+    | some (t, _) => t
+    | none => .unknown
   | _ => .unknown
 
 mutual
@@ -436,10 +453,16 @@ mutual
 /-- A-duck: the engine's class for an expression, composed from the class-level table -/
 def eng : TExpr → ETy
   | .col q n =>
-    match q, S.lookup n with
-    | .other, _ => .error             -- no such table
-    | _, some t => T.duckCol t        -- DuckDB resolves an unqualified column of the only table
-    | _, none => .error
+    match q with
+    | .other => .error                -- no such table
+    | .derived a =>
+      match (S.derived.lookup a).bind (·.lookup n) with
+      | some (_, e) => e
+      | none => .error
+    | _ =>
+      match S.table.lookup n with
+      | some t => T.duckCol t         -- DuckDB resolves an unqualified column of the only table
+      | none => .error
   | .intLit => .integer
   | .decLit => .decimal
   | .strLit _ => .strlit
@@ -669,7 +692,15 @@ mutual
     (see `operandOk`) and has an inferred type; every node is accepted by the engine table and is in none of the disagreement
     families; an n-ary node's branches stay in one coercion chain (`stepOk`). -/
 def WF : TExpr → Bool
-  | .col q n => q == .this && (match S.lookup n with | some t => colTypes.contains t | none => false)
+  | .col q n =>
+    match q with
+    | .this => (match S.table.lookup n with | some t => colTypes.contains t | none => false)
+    | .derived a =>
+      -- a projection of a child scope: it has an inferred type that describes the engine's column type
+      (match (S.derived.lookup a).bind (·.lookup n) with
+       | some (t, e) => Rel (.of t) e && t != .unknown
+       | none => false)
+    | _ => false
   | .intLit | .decLit | .strLit _ | .nullLit | .boolLit | .interval _ => true
   | .un k a =>
     WF a && typedOperand T S a && (!isWrap k || isAggNode a) && unKnown k
@@ -784,6 +815,78 @@ def censusTern : List (Option Family) :=
     (compat b).filterMap fun eb => if T.duckTern k ea eb == .error then none else some (famTern k a b)
 
 end
+
+/-! ### scopes: derived tables, and the per-call cache of their projections -/
+
+/-- what a column of a derived table is to the engine: a projected string literal is a VARCHAR column; every other class is
+    kept, including the SQLNULL type of a projected NULL literal (validated against DuckDB by the harness) -/
+def resolveCol : ETy → ETy
+  | .strlit => .text
+  | e => e
+
+section
+variable (T : Tables)
+
+/-- annotate a child scope first (`traverse_scope` yields inner scopes before outer ones): its projections `e AS name` over
+    the sources `S`, as the parent scope will see them -/
+def selectsOf (S : Schema) (projs : List (String × TExpr)) : Selects :=
+  projs.map fun (n, e) => (n, (annot T S e, resolveCol (eng T S e)))
+
+/-- the parent scope: the same base table, plus the derived tables `alias ↦ projections` (each annotated over `S`) -/
+def deriveScope (S : Schema) (ds : List (String × List (String × TExpr))) : Schema :=
+  { table := S.table, derived := ds.map fun (a, ps) => (a, selectsOf T S ps) }
+
+end
+
+/-- `TypeAnnotator._scope_source_selects`: the key is `(scope, source_name)` — or, `withScope = false`, the source name alone -/
+abbrev SelCache := List ((Nat × String) × Selects)
+
+def cacheKey (withScope : Bool) (scopeId : Nat) (alias : String) : Nat × String :=
+  (if withScope then scopeId else 0, alias)
+
+/-- what `_get_scope_source_selects` computes on a miss -/
+def sourceSelects (S : Schema) (alias : String) : Selects := (S.derived.lookup alias).getD []
+
+def cachedSelects (withScope : Bool) (cache : SelCache) (scopeId : Nat) (S : Schema) (alias : String) : SelCache × Selects :=
+  match cache.lookup (cacheKey withScope scopeId alias) with
+  | some sel => (cache, sel)
+  | none => ((cacheKey withScope scopeId alias, sourceSelects S alias) :: cache, sourceSelects S alias)
+
+def selTy (sel : Selects) (name : String) : Ty :=
+  match sel.lookup name with
+  | some (t, _) => t
+  | none => .unknown
+
+/-- the column references `alias.name` of one scope, resolved in order through the shared cache -/
+def resolveRefs (withScope : Bool) (scopeId : Nat) (S : Schema) : SelCache → List (String × String) → SelCache × List Ty
+  | cache, [] => (cache, [])
+  | cache, (a, n) :: rest =>
+    let (cache1, sel) := cachedSelects withScope cache scopeId S a
+    let (cache2, tys) := resolveRefs withScope scopeId S cache1 rest
+    (cache2, selTy sel n :: tys)
+
+/-- one `annotate_types` call over a statement: scope after scope (ids in traversal order), ONE cache for the whole call -/
+def runScopes (withScope : Bool) : SelCache → Nat → List (Schema × List (String × String)) → List (List Ty)
+  | _, _, [] => []
+  | cache, i, (S, refs) :: rest =>
+    let (cache', tys) := resolveRefs withScope i S cache refs
+    tys :: runScopes withScope cache' (i + 1) rest
+
+/-- the specification: every reference resolved against its own scope's sources -/
+def uncachedScopes (qs : List (Schema × List (String × String))) : List (List Ty) :=
+  qs.map fun (S, refs) => refs.map fun (a, n) => selTy (sourceSelects S a) n
+
+/-- the per-call caches of `TypeAnnotator` whose VALUE depends on the scope they were computed in -/
+def scopeDependentCaches : List String := ["_scope_source_selects"]
+
+/-- the caches the model knows: those keyed by `id(node)` are scope independent -/
+def knownCaches : List String := ["_visited", "_null_expressions", "_setop_column_types", "_scope_source_selects"]
+
+/-- obligation on the cache inventory extracted from the source (`name`, `every key expression mentions a Scope`): only known
+    caches, every scope-dependent one is present and has the scope in its key -/
+def cachesOk (inv : List (String × Bool)) : Bool :=
+  inv.all (fun (n, hasScope) => knownCaches.contains n && (!(scopeDependentCaches.contains n) || hasScope))
+  && scopeDependentCaches.all (fun n => (inv.map (·.1)).contains n)
 
 /-! ### decimals' precision / scale
 
